@@ -13,7 +13,7 @@ import (
 func init() { gin.SetMode(gin.ReleaseMode) }
 
 // buildGin builds a gin engine: [gin recovery] -> pre -> { /n/ctrl ; group /s with ScopeMiddleware }.
-func buildGin(cs *caseState, sp *spy) http.Handler {
+func buildGin(cs *caseState, sp godi.Provider) http.Handler {
 	o := cs.spec.Opts
 	look := func(c *gin.Context) *reqState { return cs.lookup(c.Request.Header.Get(hdrReq)) }
 
